@@ -146,6 +146,7 @@ CHECKS = {
         "rule": ("kinds cond (plans: k in 1..5 waiters each parked or held in the unlock-to-park window, some with a context that has already ended, up to 3 late entrants that enter Wait in the middle of the 0-8 steps) and broadcast-storm (K parked waiters, noise goroutines doing ended-context Waits and/or Signals while one Broadcast is issued, 100-400 rounds per case; always non-trivial). cond plans: non-trivial = at least 2 waiters and a Signal or Broadcast is issued while some waiter is in the window; distinct = distinct plan JSON; every plan is executed R times (quick 3, thorough 10)"),
         "assumptions": ["testing/synctest durable-block detection", "the gated Locker identifies the unlocking waiter because Lock is exclusive", "rapid v1.3.0; go1.26.8"],
         "jobs": [{"pkg": "c16cond", "kinds": ["cond", "broadcast-storm"], "scale_thorough": 10, "shards_thorough": 16, "replay_reps": 50},
+                 {"pkg": "c16cond", "goarch": "386", "kinds": ["cond", "broadcast-storm"], "scale_quick": 0.1, "scale_thorough": 1, "shards_thorough": 2},
                  {"pkg": "c16cond", "race": True, "kinds": ["cond", "broadcast-storm"], "scale_quick": 0.15, "scale_thorough": 2, "shards_thorough": 4, "replay_reps": 20}],
     },
     "C11": {
@@ -173,6 +174,7 @@ CHECKS = {
         "assumptions": ["testing/synctest durable-block detection", "logical stamps taken by the actors bracket the library calls", "rapid v1.3.0; go1.26.8"],
         "jobs": [{"pkg": "c10pipe", "run": "TestPipeParked", "kinds": ["pipe-parked"], "scale_thorough": 4, "shards_thorough": 2},
                  {"pkg": "c10pipe", "run": "TestPipe$|TestPipeStorm", "kinds": ["pipe", "pipe-storm"], "scale_thorough": 8, "shards_thorough": 16, "replay_reps": 200},
+                 {"pkg": "c10pipe", "goarch": "386", "run": "TestPipe$|TestPipeStorm", "kinds": ["pipe", "pipe-storm"], "scale_quick": 0.1, "scale_thorough": 1, "shards_thorough": 2},
                  {"pkg": "c10pipe", "race": True, "run": "TestPipe$|TestPipeStorm", "kinds": ["pipe", "pipe-storm"], "scale_quick": 0.15, "scale_thorough": 2, "shards_thorough": 4, "replay_reps": 20}],
     },
     "C12": {
@@ -185,6 +187,7 @@ CHECKS = {
         "rule": ("kinds chans-merge, chans-merge-iface (chan error carrying nil values), replicate, stream-merge, stream-merge-burst (many rounds of inputs that end at the same instant), chans-merge-shared (another goroutine receives from input 0 as well; merged + taken = sent), stream-merge-error-storm (one failing input among idle context-aware ones, 100-500 rounds per case), replicate-iface (chan error with nil values, 0-5 destinations); merges of up to 130 inputs. non-trivial = >= 2 non-empty inputs of different lengths (one closes while another still has values), or arity in {0,1}, or an early Close (stream.Merge); replicate: >= 2 destinations and >= 2 values, or zero destinations; distinct = distinct plan JSON; R=3/10"),
         "assumptions": ["testing/synctest durable-block detection", "rapid v1.3.0; go1.26.8"],
         "jobs": [{"pkg": "c12merge", "kinds": ["chans-merge", "chans-merge-iface", "replicate", "stream-merge", "stream-merge-burst", "chans-merge-shared", "stream-merge-error-storm", "replicate-iface"], "scale_thorough": 10, "shards_thorough": 16, "replay_reps": 30},
+                 {"pkg": "c12merge", "goarch": "386", "kinds": ["chans-merge", "stream-merge", "stream-merge-burst", "stream-merge-error-storm"], "run": "TestChansMerge$|TestStreamMerge", "scale_quick": 0.1, "scale_thorough": 1, "shards_thorough": 2},
                  {"pkg": "c12merge", "race": True, "kinds": ["chans-merge", "chans-merge-iface", "replicate", "stream-merge", "stream-merge-burst", "chans-merge-shared", "stream-merge-error-storm", "replicate-iface"], "scale_quick": 0.15, "scale_thorough": 2, "shards_thorough": 4, "replay_reps": 20}],
     },
     "C13": {
@@ -197,6 +200,7 @@ CHECKS = {
         "rule": ("kinds parallel (bubble), parallel-race, first-error-storm (50-300 quick failing runs per case on real goroutines), gomaxprocs (parallelism <= 0 after runtime.GOMAXPROCS was lowered). non-trivial = n > parallelism >= 2 with non-uniform latencies or at least one failing index; distinct = distinct plan JSON; R=3/8"),
         "assumptions": ["testing/synctest", "Go race detector", "rapid v1.3.0; go1.26.8"],
         "jobs": [{"pkg": "c13par", "run": "TestParallelBubble|TestFirstErrorStorm|TestGomaxprocs", "kinds": ["parallel", "first-error-storm", "gomaxprocs"], "scale_thorough": 8, "shards_thorough": 16, "replay_reps": 20},
+                 {"pkg": "c13par", "goarch": "386", "run": "TestParallelBubble|TestFirstErrorStorm", "kinds": ["parallel", "first-error-storm"], "scale_quick": 0.1, "scale_thorough": 1, "shards_thorough": 2},
                  {"pkg": "c13par", "run": "TestParallelRace", "race": True, "kinds": ["parallel-race"], "scale_thorough": 8, "shards_thorough": 8, "replay_reps": 20}],
     },
     "C14": {
@@ -209,6 +213,7 @@ CHECKS = {
         "rule": ("kinds map-iterator, map-stream (scripted bubble plans) and map-storm (5000-40000 zero-latency items per case in a bubble, every (parallelism, buffer) shape; non-trivial = parallelism >= 2) and map-finish-storm (0-3 items, 4-64 workers that all finish at the same instant, 300-1500 rounds per case). scripted plans (a failing f may return an error that wraps a context error; a source may block, idle, until its context ends): non-trivial = completion order differed from source order AND the gauge reached its bound (back-pressure engaged), or a failure surfaced with results still in flight; distinct = distinct plan JSON; R=3/10"),
         "assumptions": ["testing/synctest", "rapid v1.3.0; go1.26.8"],
         "jobs": [{"pkg": "c14mapit", "kinds": ["map-iterator", "map-stream", "map-storm", "map-finish-storm"], "scale_thorough": 8, "shards_thorough": 16, "replay_reps": 30},
+                 {"pkg": "c14mapit", "goarch": "386", "kinds": ["map-iterator", "map-stream", "map-storm", "map-finish-storm"], "scale_quick": 0.1, "scale_thorough": 1, "shards_thorough": 2},
                  {"pkg": "c14mapit", "race": True, "kinds": ["map-iterator", "map-stream", "map-storm", "map-finish-storm"], "scale_quick": 0.1, "scale_thorough": 2, "shards_thorough": 4, "replay_reps": 20}],
     },
     "C18": {
@@ -222,6 +227,7 @@ CHECKS = {
                  "watchable-conc = an observer saw the zero value before a Set or several Sets between two of its Values; future = a waiter present at Fill, >= 2 waiters; lazy = >= 2 racing callers; distinct = distinct plan JSON"),
         "assumptions": ["sync.Map as reference", "testing/synctest", "rapid v1.3.0; go1.26.8"],
         "jobs": [{"pkg": "c18sync", "run": "TestMap|TestWatchable|TestFuture$|TestLazy|TestSyncStorm", "kinds": ["map", "watchable-seq", "watchable-conc", "watchable-first-set", "future", "lazy", "sync-storm"], "scale_thorough": 10, "shards_thorough": 16, "replay_reps": 20},
+                 {"pkg": "c18sync", "goarch": "386", "run": "TestMap|TestWatchable|TestFuture$|TestSyncStorm", "kinds": ["map", "watchable-seq", "watchable-conc", "watchable-first-set", "future", "sync-storm"], "scale_quick": 0.1, "scale_thorough": 1, "shards_thorough": 2},
                  {"pkg": "c18sync", "run": "TestFutureRace|TestLazy|TestWatchableSequential|TestSyncStorm", "race": True, "kinds": ["future-race", "sync-storm"], "scale_quick": 0.5, "scale_thorough": 5, "shards_thorough": 4, "replay_reps": 20}],
     },
     "C17": {
@@ -236,6 +242,7 @@ CHECKS = {
         "assumptions": ["testing/synctest", "rapid v1.3.0; go1.26.8"],
         "jobs": [{"pkg": "c17old", "kinds": ["pot-old-timers", "pot-trigger-real"], "scale_thorough": 4, "shards_thorough": 4},
                  {"pkg": "c17group", "kinds": ["group", "stop-storm", "trigger-first-call", "trigger-storm"], "scale_thorough": 3, "shards_thorough": 16, "replay_reps": 30},
+                 {"pkg": "c17group", "goarch": "386", "kinds": ["group", "stop-storm", "trigger-first-call", "trigger-storm"], "scale_quick": 0.1, "scale_thorough": 1, "shards_thorough": 2},
                  {"pkg": "c17group", "race": True, "kinds": ["group", "stop-storm", "trigger-first-call", "trigger-storm"], "scale_quick": 0.15, "scale_thorough": 1, "shards_thorough": 4, "replay_reps": 20}],
     },
     "C19": {
